@@ -137,8 +137,8 @@ def case_lines(c):
     ks = " ".join(map(str, keys))
     dense = c["kind"] in ("dense", "points")
     if dense:
-        for form in c.get("forms", ["lower", "upper", "full", "fullraw", "upconv", "sparsector", "sparse"]):
-            if form in ("lower", "full", "fullraw", "sparsector"):
+        for form in c.get("forms", ["lower", "lowerdirect", "upper", "full", "fullraw", "upconv", "sparsector", "sparse"]):
+            if form in ("lower", "lowerdirect", "full", "fullraw", "sparsector"):
                 H.append((form, "R %s %s %s" % (form, head, ks)))
             elif form in ("upper", "upconv"):
                 H.append((form, "R %s %s %s" % (form, head, " ".join(map(str, upper_keys(n, M))))))
